@@ -18,13 +18,13 @@ PROPS = {
     'C05': {'units': ['chal'], 'kani': [], 'exclude': r'canonical_width'},
     'C06': {'units': ['bind', 'pchain'], 'kani': []},
     'C17': {'units': ['cache'], 'kani': []},
-    'C10': {'units': ['sched', 'tracegen'], 'kani': []},
+    'C10': {'units': ['sched', 'tracegen', 'ptrace'], 'kani': []},
     'C18': {'units': ['dsu', 'order', 'pphase'], 'kani': []},
     'C14': {'units': ['pack', 'pack2', 'pack3'], 'kani': []},
     'C12': {'units': ['bits', 'chal', 'coef', 'rcair'], 'kani': [], 'only': {'chal': r'canonical_width'}},
     'C15': {'units': ['shape', 'bshape', 'openin'], 'kani': [], 'only': {'openin': r'per_matrix_shape_and_grouping|compute_single_reduced_opening|height_group'}},
     'C13': {'units': ['sym', 'symx'], 'kani': []},
-    'C09': {'units': ['prep', 'mult', 'pread', 'pphase'], 'kani': []},
+    'C09': {'units': ['prep', 'mult', 'pread', 'pphase', 'ptrace'], 'kani': []},
     'C08': {'units': ['mmcs', 'hash', 'mbind', 'vbatch', 'vbatchx'], 'kani': []},
     'C16': {'units': ['meta', 'vrfy', 'serde16'], 'kani': []},
     'C11': {'units': ['air', 'alu', 'run19', 'tracegen'], 'kani': [], 'only': {'run19': r'execute_alu_op'}},
